@@ -228,7 +228,11 @@ class Exec(EvalMixin, CallMixin):
         tree = ast.parse(code)
         saved_frames = st.frames
         st.frames = []
-        res = self.block(tree.body, st)
+        self.in_ghost = getattr(self, "in_ghost", 0) + 1
+        try:
+            res = self.block(tree.body, st)
+        finally:
+            self.in_ghost -= 1
         if len(res) != 1 or res[0][0] is not st and False:
             pass
         if len(res) != 1:
@@ -283,6 +287,19 @@ class Exec(EvalMixin, CallMixin):
     def st_Expr(self, node, st):
         if isinstance(node.value, ast.Constant):
             return [(st, "next")]
+        v = node.value
+        if getattr(self, "in_ghost", 0) and isinstance(v, ast.Call) and isinstance(v.func, ast.Name) \
+                and v.func.id == "cut":
+            # cut(targets, P): prove P, forget everything else about the targets, continue with P only
+            tsrc = [t.strip() for t in v.args[0].value.split(",")]
+            psrc = v.args[1].value
+            cxg = Ctx(spec=True, pre=self.pre, pre_env=self.pre_env, entry_alloc=self.entry_alloc)
+            env = dict(self.pre_env)
+            env.update(st.env)
+            self.oblige("cut[%s]" % psrc[:50], st, self.formula(psrc, st, cxg, env, pol=1), None, kind="lemma")
+            self.havoc_targets(st, self.eval_targets(tsrc, st, env))
+            st.assume(self.formula(psrc, st, cxg, env, pol=-1))
+            return [(st, "next")]
         self.ev(node.value, st, CODE)
         return [(st, "next")]
 
@@ -304,6 +321,13 @@ class Exec(EvalMixin, CallMixin):
         return []
 
     def st_Assert(self, node, st):
+        if getattr(self, "in_ghost", 0):
+            # ghost lemma: proved here, then available to later obligations (helps quantifier instantiation)
+            c = self.formula(node.test, st, Ctx(spec=True, pre=self.pre, pre_env=self.pre_env,
+                                                entry_alloc=self.entry_alloc), pol=1)
+            self.oblige("ghost-lemma[%s]" % ast.unparse(node.test)[:60], st, c, None, kind="lemma")
+            st.assume(c)
+            return [(st, "next")]
         c = self.truth(st, self.ev(node.test, st, CODE))
         bad = st.fork()
         bad.assume(z3.Not(c))
@@ -317,6 +341,13 @@ class Exec(EvalMixin, CallMixin):
         if not z3.is_false(c):
             a = st.fork()
             a.assume(c)
+            t_ = node.test
+            if isinstance(t_, ast.Call) and isinstance(t_.func, ast.Name) and t_.func.id == "isinstance" \
+                    and isinstance(t_.args[0], ast.Name) and isinstance(t_.args[1], ast.Name) \
+                    and t_.args[0].id in a.env and (t_.args[1].id in self.uni.val_classes
+                                                    or t_.args[1].id in self.uni.obj_classes):
+                old_ = a.env[t_.args[0].id]
+                a.env[t_.args[0].id] = SV(old_.t, self.uni.class_kind(t_.args[1].id), old_.h)   # narrowing
             out += self.block(node.body, a)
         if not z3.is_true(c):
             b = st.fork()
@@ -331,8 +362,8 @@ class Exec(EvalMixin, CallMixin):
         if node.value is None:
             return [(st, "next")]
         v = self.ev(node.value, st, CODE)
-        if k != ANY and (v.k == ANY or self.less_precise(v.k, k)):
-            v = SV(v.t, k)
+        if k != ANY and v.k != NONE:
+            v = SV(v.t, k, v.h)      # the declared type wins over the (possibly narrower) type of the initialiser
         self.assign(node.target, v, st, node)
         return [(st, "next")]
 
@@ -354,8 +385,8 @@ class Exec(EvalMixin, CallMixin):
         line = node.lineno
         if isinstance(tgt, ast.Name):
             dk = self.decl_kinds.get(tgt.id)
-            if dk is not None and (v.k == ANY or self.less_precise(v.k, dk)):
-                v = SV(v.t, dk)
+            if dk is not None and dk != ANY and v.k != NONE:
+                v = SV(v.t, dk, v.h)
             st.env[tgt.id] = v
             return
         if isinstance(tgt, ast.Attribute):
@@ -553,6 +584,7 @@ class Exec(EvalMixin, CallMixin):
         for name, src in invs:
             self.oblige("loop%d/inv[%s]/entry" % (ordn, name), st, self.formula(src, st, cxl, inv_env(st), pol=1),
                         line, kind="inv")
+        implicit = desc is not None and "bound" in desc and not spec.get("no_implicit_bound")
         # ---- havoc
         body_stmts = node.body
         names = self.assigned_names(body_stmts) | ({idx} if desc is not None else set())
@@ -586,6 +618,9 @@ class Exec(EvalMixin, CallMixin):
                 assume_typed(head, t, k)
         if desc is not None:
             head.assume(ival(head.env[idx].t) >= 0)
+        if implicit:
+            # implicit invariant of a counted loop: the counter never passes the number of iterations
+            head.assume(self.as_int(head.env[idx]) <= desc["bound"](head))
         for name, src in invs:
             head.assume(self.formula(src, head, cxl, inv_env(head), pol=-1))
         out = []
@@ -600,10 +635,14 @@ class Exec(EvalMixin, CallMixin):
             sb.assume(g)
         for s, flow in self.block(body_stmts, sb):
             if flow in ("next", "continue"):
+                self.oblige("cover/loop%d-body-path" % ordn, s, z3.BoolVal(False), line, kind="cover-path")
                 if desc is not None:
                     s.env[idx] = SInt(self.as_int(s.env[idx]) + 1)
                 if spec.get("ghost_step"):
                     self.run_ghost(spec["ghost_step"], s)
+                if implicit:
+                    self.oblige("loop%d/inv[implicit-bound]/preserve" % ordn, s,
+                                self.as_int(s.env[idx]) <= desc["bound"](s), line, kind="inv")
                 for name, src in invs:
                     self.oblige("loop%d/inv[%s]/preserve" % (ordn, name), s,
                                 self.formula(src, s, cxl, inv_env(s), pol=1), line, kind="inv")
@@ -659,43 +698,50 @@ class Exec(EvalMixin, CallMixin):
             args = [self.as_int(self.ev(a, st, CODE)) for a in it.args]
             lo, hi = (z3.IntVal(0), args[0]) if len(args) == 1 else (args[0], args[1])
             return {"guard": lambda s: lo + k_of(s) < hi,
-                    "bind": lambda s: bind_names(s, tgt, SInt(lo + k_of(s)))}
+                    "bind": lambda s: bind_names(s, tgt, SInt(lo + k_of(s))),
+                    "bound": lambda s: z3.If(hi - lo > 0, hi - lo, 0)}
         if isinstance(it, ast.Call) and isinstance(it.func, ast.Name) and it.func.id == "reversed":
             base = self.ev(it.args[0], st, CODE)
             r = ref(base.t)
             ek = unopt(base.k)[1]
-            n0 = ops.l_len(st, r)
+            hb = base.h          # a frozen (observer) list is read in its own heap
+            n0 = ops.l_len(hb or st, r)
 
             def pos(s):
                 return n0 - 1 - k_of(s)
 
             def bind(s):
-                t = ops.l_get(s, r, pos(s))
-                assume_typed(s, t, ek)
-                bind_names(s, tgt, SV(t, ek))
-            return {"guard": lambda s: z3.And(pos(s) >= 0, pos(s) < ops.l_len(s, r)), "bind": bind}
+                t = ops.l_get(hb or s, r, pos(s))
+                assume_typed(s, t, ek, hb)
+                bind_names(s, tgt, SV(t, ek, hb))
+            return {"guard": lambda s: z3.And(pos(s) >= 0, pos(s) < ops.l_len(hb or s, r)), "bind": bind,
+                    "bound": lambda s: n0}
         if isinstance(it, ast.Call) and isinstance(it.func, ast.Name) and it.func.id == "enumerate":
             base = self.ev(it.args[0], st, CODE)
             r = ref(base.t)
             ek = unopt(base.k)[1]
+            hb = base.h
 
             def bind(s):
-                t = ops.l_get(s, r, k_of(s))
-                assume_typed(s, t, ek)
+                t = ops.l_get(hb or s, r, k_of(s))
+                assume_typed(s, t, ek, hb)
                 bind_names(s, tgt.elts[0], SInt(k_of(s)))
-                bind_names(s, tgt.elts[1], SV(t, ek))
-            return {"guard": lambda s: k_of(s) < ops.l_len(s, r), "bind": bind}
+                bind_names(s, tgt.elts[1], SV(t, ek, hb))
+            return {"guard": lambda s: k_of(s) < ops.l_len(hb or s, r), "bind": bind,
+                    "bound": lambda s: ops.l_len(hb or s, r)}
         if isinstance(it, ast.Call) and isinstance(it.func, ast.Name) and it.func.id == "zip":
             bases = [self.ev(a, st, CODE) for a in it.args]
             rs = [ref(b.t) for b in bases]
             eks = [unopt(b.k)[1] for b in bases]
+            hbs = [b.h for b in bases]
 
             def bind(s):
-                for e, r, ek in zip(tgt.elts, rs, eks):
-                    t = ops.l_get(s, r, k_of(s))
-                    assume_typed(s, t, ek)
-                    bind_names(s, e, SV(t, ek))
-            return {"guard": lambda s: z3.And([k_of(s) < ops.l_len(s, r) for r in rs]), "bind": bind}
+                for e, r, ek, hb in zip(tgt.elts, rs, eks, hbs):
+                    t = ops.l_get(hb or s, r, k_of(s))
+                    assume_typed(s, t, ek, hb)
+                    bind_names(s, e, SV(t, ek, hb))
+            return {"guard": lambda s: z3.And([k_of(s) < ops.l_len(hb or s, r) for r, hb in zip(rs, hbs)]),
+                    "bind": bind}
         base = self.ev(it, st, CODE)
         k = unopt(base.k)
         if k.head in ("set", "dict", "keys", "values", "items"):
@@ -721,14 +767,16 @@ class Exec(EvalMixin, CallMixin):
                     bind_names(s, tgt.elts[0], SV(key, k[1]))
                     bind_names(s, tgt.elts[1], SV(t, k[2]))
             # enumeration fixed at loop start (mutating a set/dict while iterating raises in CPython)
-            return {"guard": lambda s: k_of(s) < n, "bind": bind, "enum": enum}
+            return {"guard": lambda s: k_of(s) < n, "bind": bind, "enum": enum, "bound": lambda s: n}
         if k.head in ("list", "vtuple"):
             r = ref(base.t)
             ek = k[1] if len(k) > 1 else ANY
+            hb = base.h
 
             def bind(s):
-                t = ops.l_get(s, r, k_of(s))
-                assume_typed(s, t, ek)
-                bind_names(s, tgt, SV(t, ek))
-            return {"guard": lambda s: k_of(s) < ops.l_len(s, r), "bind": bind}
+                t = ops.l_get(hb or s, r, k_of(s))
+                assume_typed(s, t, ek, hb)
+                bind_names(s, tgt, SV(t, ek, hb))
+            return {"guard": lambda s: k_of(s) < ops.l_len(hb or s, r), "bind": bind,
+                    "bound": lambda s: ops.l_len(hb or s, r)}
         raise OutOfSubset("for loop over kind %r (line %s)" % (base.k, node.lineno))
